@@ -800,7 +800,9 @@ theorem evalQuery_noPanic (ctx : Ctx) (hc : CtxOK ctx) (q : Query)
     simp only [evalQuery]
     apply noPanic_bind (quantityOrValue_noPanic ctx hc e)
     intro v _
-    split <;> first | exact noPanic_unsupported _ | exact noPanic_ok _
+    split
+    · exact noPanic_err _
+    · split <;> first | exact noPanic_unsupported _ | exact noPanic_ok _
   | unitsFor e =>
     simp only [evalQuery]
     exact noPanic_bind (quantityOrValue_noPanic ctx hc e) (fun _ _ => noPanic_ok _)
